@@ -39,6 +39,10 @@ class Deadlock(Exception):
     pass
 
 
+class Livelock(Deadlock):
+    pass
+
+
 class Sched:
     def __init__(self, root):
         self.root = root
@@ -101,6 +105,7 @@ class Sched:
         finally:
             with self.cv:
                 self.done[pid] = outcome
+                self.release_all(pid)       # process exit drops its locks
                 self.waiting.pop(pid, None)
                 self.blocked.pop(pid, None)
                 if self.current == pid:
@@ -152,7 +157,10 @@ class Sched:
                     self.last = pick
                     self.current = pick
                     self.cv.notify_all()
-            raise HarnessError(f"schedule did not finish in {max_steps} steps")
+            raise Livelock(
+                f"the participants did not finish within {max_steps} "
+                f"operations under a fair schedule; the last ones: "
+                f"{self.trace[-6:]}")
         finally:
             with self.cv:
                 self.abort = True
@@ -345,6 +353,7 @@ def make_open(sched):
 def make_sleep(sched):
     async def sleep(t=0):
         sched.yield_point(f"sleep({t})")
+        await asyncio.sleep(0)      # the other tasks of this process run
     return sleep
 
 
